@@ -24,6 +24,11 @@ class TrieDict(object):
         self.__root = TrieDictNode()
 
     def __len__(self):
+        # NOTE: counters only count the items stored below a node, so the
+        # empty prefix, stored in the root itself, must be added
+        if self.__root.value is not NULL:
+            return self.__root.counter + 1
+
         return self.__root.counter
 
     def __setitem__(self, prefix, value):
